@@ -172,6 +172,12 @@ impl BlockEncoder {
             _ => Err(FluteError::new("Not a data source buffer")),
         }?;
 
+        if content.is_empty() {
+            // Empty object, there is no block to encode
+            self.read_end = true;
+            return Ok(());
+        }
+
         let oti = &self.file.oti;
         let block_length = match self.curr_sbn as u64 {
             value if value < self.nb_a_large => self.a_large,
